@@ -375,6 +375,15 @@ impl Prop for C15 {
                 }
             }
         }
+        // the application's own graph accessors (the ones the language bindings expose) over the
+        // same files: one case in six builds a whole application whose [graph] section names them
+        if (n + m) % 6 == 0 {
+            o.label("application-accessors");
+            if let Some(f) = app_accessors(c, &dir, &g, &ctx) {
+                o.fail(f.0, f.1);
+                return o;
+            }
+        }
         // per-edge tables are aligned with edge ids by row
         if m > 0 {
             let gz = c.gzip.2;
@@ -434,4 +443,97 @@ impl Prop for C15 {
         }
         o
     }
+}
+
+/// the language-binding interface over an application that already exists
+struct Bound<'a>(&'a routee_compass::app::compass::compass_app::CompassApp);
+impl routee_compass::app::bindings::CompassAppBindings for Bound<'_> {
+    fn from_config_toml_string(_config_string: String, _original_file_path: String) -> Result<Self, routee_compass::app::compass::compass_app_error::CompassAppError> {
+        Err(routee_compass::app::compass::compass_app_error::CompassAppError::InternalError("not used".into()))
+    }
+    fn app(&self) -> &routee_compass::app::compass::compass_app::CompassApp {
+        self.0
+    }
+}
+
+/// a distance unit named by a text, ignoring case and surrounding blanks (None: no unit of that name)
+fn unit_named(text: &str) -> Option<routee_compass_core::model::unit::DistanceUnit> {
+    use routee_compass_core::model::unit::DistanceUnit as U;
+    match text.trim().to_ascii_lowercase().as_str() {
+        "meters" => Some(U::Meters),
+        "kilometers" => Some(U::Kilometers),
+        "miles" => Some(U::Miles),
+        "feet" => Some(U::Feet),
+        "inches" => Some(U::Inches),
+        _ => None,
+    }
+}
+
+/// An application over the files of the judged load, questioned through `CompassAppBindings`:
+/// origin, destination and length of every edge (length in every unit, by name), both incident
+/// edge lists of every vertex.  A unit text is either refused or answered in the unit it names -
+/// never with a number in another unit.
+fn app_accessors(c: &C15Case, dir: &CaseDir, g: &crate::refmodel::RefGraph, ctx: &serde_json::Value) -> Option<(String, serde_json::Value)> {
+    use crate::refmodel::conv_dist;
+    use routee_compass::app::bindings::CompassAppBindings;
+    use routee_compass_core::model::unit::DistanceUnit;
+    let (n, m) = (c.net.n(), c.net.m());
+    let name = |base: &str, gz: bool| if gz { format!("{}.csv.gz", base) } else { format!("{}.csv", base) };
+    let ep = dir.file(&name("edges", c.gzip.0));
+    let vp = dir.file(&name("vertices", c.gzip.1));
+    let dir2 = CaseDir::new();
+    let spec = crate::appbuild::AppSpec::simple(c.net.clone());
+    let files = match crate::appbuild::write_app(&spec, &dir2) {
+        Ok(f) => f,
+        Err(_) => return None,
+    };
+    let mut cfg = files.config.clone();
+    cfg["graph"] = json!({"edge_list_input_file": ep.to_string_lossy().to_string(), "vertex_list_input_file": vp.to_string_lossy().to_string(), "verbose": false});
+    let app = match crate::engine::guard(|| crate::appbuild::app_from_config(&cfg, dir2.path())) {
+        Ok(Ok(a)) => a,
+        Ok(Err(e)) => return Some(("C15/app/load-error".into(), json!({"ctx": ctx, "error": e}))),
+        Err(p) => return Some(("C15/app/load-error".into(), json!({"ctx": ctx, "panic": [p.0, p.1]}))),
+    };
+    let b = Bound(&app);
+    for (i, (s, d, l)) in c.net.edges.iter().enumerate() {
+        let want_m: f64 = format!("{}", l).parse().unwrap_or(f64::NAN);
+        if b.graph_edge_origin(i).ok() != Some(*s) || b.graph_edge_destination(i).ok() != Some(*d) {
+            return Some(("C15/app/edge-end-points".into(), json!({"ctx": ctx, "edge": i, "row": [s, d], "got": [b.graph_edge_origin(i).ok(), b.graph_edge_destination(i).ok()]})));
+        }
+        if b.graph_edge_distance(i, None).ok() != Some(want_m) {
+            return Some(("C15/app/edge-length".into(), json!({"ctx": ctx, "edge": i, "row_length_m": want_m, "got": b.graph_edge_distance(i, None).ok()})));
+        }
+        // every unit by its documented name, and spellings the parser may or may not accept
+        let texts = ["meters", "kilometers", "miles", "feet", "inches", "Miles", "KILOMETERS", " feet", "Inches", "km", "mile", ""];
+        // a few edges get the whole list, the others one text each
+        let pick: Vec<&str> = if i < 3 { texts.to_vec() } else { vec![texts[(i * 5 + m) % texts.len()]] };
+        for t in pick {
+            match (b.graph_edge_distance(i, Some(t.to_string())), unit_named(t)) {
+                (Ok(x), Some(u)) => {
+                    let want = conv_dist(want_m, DistanceUnit::Meters, u);
+                    if (x - want).abs() > 2e-3 * want.abs() {
+                        return Some(("C15/app/edge-length-in-the-named-unit".into(), json!({"ctx": ctx, "edge": i, "unit_text": t, "row_length_m": want_m, "expected": want, "got": x})));
+                    }
+                }
+                (Ok(x), None) => {
+                    return Some(("C15/app/length-answered-for-a-text-that-names-no-unit".into(), json!({"ctx": ctx, "edge": i, "unit_text": t, "got": x})));
+                }
+                (Err(_), Some(_)) if ["meters", "kilometers", "miles", "feet", "inches"].contains(&t) => {
+                    return Some(("C15/app/documented-unit-name-refused".into(), json!({"ctx": ctx, "edge": i, "unit_text": t})));
+                }
+                (Err(_), _) => {}
+            }
+        }
+    }
+    if b.graph_edge_origin(m).is_ok() || b.graph_edge_destination(m).is_ok() || b.graph_edge_distance(m, None).is_ok() {
+        return Some(("C15/app/id-beyond-the-file-is-retrievable".into(), ctx.clone()));
+    }
+    for v in 0..n {
+        let out = b.graph_get_out_edge_ids(v);
+        let inc = b.graph_get_in_edge_ids(v);
+        if sorted(out.clone()) != sorted(g.out[v].clone()) || sorted(inc.clone()) != sorted(g.inc[v].clone()) {
+            return Some(("C15/app/incident-edges".into(), json!({"ctx": ctx, "vertex": v, "out": out, "in": inc, "rows_leaving_it": g.out[v], "rows_entering_it": g.inc[v]})));
+        }
+    }
+    None
 }
